@@ -115,6 +115,20 @@ Theorem c20_partial_mono : forall slots b x,
   exists t, hv_headers v' = hv_headers v ++ t.
 Proof. exact partial_view_mono. Qed.
 
+(** What [complete_fields h p] is: a prefix of the head's field list ... *)
+Theorem c20_complete_fields_prefix : forall h p, exists t, rh_fields h = complete_fields h p ++ t.
+Proof. exact complete_fields_prefix. Qed.
+
+(** ... whose rendered lines are, byte for byte, inside [p]. *)
+Theorem c20_complete_fields_contained : forall h p x,
+  render_response_head h = p ++ x -> complete_fields h p <> [] ->
+  exists q, p = render_status_line h ++ render_lines (complete_fields h p) ++ q.
+Proof. exact complete_fields_contained. Qed.
+
+(** Sanity of the specification: [status_digits] is the decimal rendering. *)
+Theorem c20_status_digits : forall s, 100 <= s <= 999 -> status_digits s = dec_of s.
+Proof. exact status_digits_dec. Qed.
+
 (** The exact state of httparse on a prefix: status line, [k] complete field lines and a strict
     prefix [q] of the next line ([next_line]: field line k+1, or the final blank line). *)
 Theorem c20_partial_view : forall slots h k q y,
@@ -179,6 +193,9 @@ Print Assumptions c20_request_limit_early.
 Print Assumptions c20_partial_sound.
 Print Assumptions c20_partial_total.
 Print Assumptions c20_partial_mono.
+Print Assumptions c20_complete_fields_prefix.
+Print Assumptions c20_complete_fields_contained.
+Print Assumptions c20_status_digits.
 Print Assumptions c20_partial_view.
 Print Assumptions c20_response_nonvacuous.
 Print Assumptions c20_request_nonvacuous.
